@@ -424,8 +424,8 @@ def differential(ctx, n):
 
 def run(ctx):
     import logging
-    logging.getLogger("deep").setLevel(logging.CRITICAL + 1)
-    logging.getLogger().setLevel(logging.CRITICAL + 1)
+    from ..lib.quiet import quiet_logging
+    quiet_logging()
     ctx.rule = ("(a) 2 scenarios (7 events: call, lines, caught exception, return of an unprintable value; snapshot with watches "
                 "and log, log, metric, line span, method span, method capture, optionally a nameless method location; locals "
                 "with raising __str__/__repr__/__len__/__getattr__, a generator, non-string keys) x %d fault sites inside the "
